@@ -1,7 +1,8 @@
 (** C16 — RingBuffer is a bounded deque; element lifetimes are exact.
     Statements only; proofs live in C16/RingProofs.v and C16/RingRefine.v. *)
 From Coq Require Import List.
-From TLXV Require Import C16.Ring C16.RingProofs C16.RingRefine.
+From TLXV Require Import C16.Ring C16.RingProofs C16.RingRefine C16.SVec.
+From TLXV Require C16.SVecProofs.
 Import ListNotations.
 
 (** For every history over three buffer variables (allocate, deallocate, pushes and pops at both ends,
@@ -48,3 +49,16 @@ Theorem C16_allocate_shipped_refuted :
   bad (push_back (buf (allocate rd 1)) 1) = false.
 Proof. exact allocate_shipped_refuted. Qed.
 Print Assumptions C16_allocate_shipped_refuted.
+
+(** SimpleVector (Normal mode): for every history over three variables (construction with a size, resize,
+    element writes, destroy(), move construction / assignment, swap, queries) the answers are those of plain lists
+    (resize keeps the first min(old,new) elements and default-constructs the rest), no storage block is released
+    twice or touched after release, and destroying the variables releases every block: each new T[n] is matched
+    by exactly one delete[], so every element is constructed and destroyed exactly once. *)
+Theorem C16_svec_refines_lists : forall ops,
+  SVecProofs.svalid [[]; []; []] ops = true ->
+  snd (vrun vinit ops) = snd (SVecProofs.srun [[]; []; []] ops) /\
+  hbad (vheap (fst (vrun vinit ops))) = false /\
+  vfinal_ok (fst (vrun vinit ops)) = true.
+Proof. exact SVecProofs.svec_refines_lists. Qed.
+Print Assumptions C16_svec_refines_lists.
